@@ -234,6 +234,14 @@ func (x *xpoaConsensus) CheckMinerMatch(ctx xcontext.XContext, block cctx.BlockI
 
 // ProcessBeforeMiner 开始挖矿前进行相应的处理, 返回truncate目标(如需裁剪), 返回写consensusStorage, 返回err
 func (x *xpoaConsensus) ProcessBeforeMiner(timestamp int64) ([]byte, []byte, error) {
+	// CompeteMaster decided by the wall clock of its own moment; the block will carry this
+	// timestamp, and an own block never goes through CheckMinerMatch: the node must be the
+	// producer the schedule names at the block's own timestamp (the production step may have been
+	// delayed past the hand-over), otherwise every peer refuses the block it confirms locally
+	_, pos, blockPos := x.election.minerScheduling(timestamp, len(x.election.validators))
+	if blockPos > x.election.blockNum || pos >= int64(len(x.election.validators)) || x.election.validators[pos] != x.election.address {
+		return nil, nil, MinerSelectErr
+	}
 	if !x.election.enableBFT {
 		return nil, nil, nil
 	}
